@@ -401,6 +401,48 @@ func ZZVerifC01View() {
 	nd.Reach("C01/view-end")
 }
 
+// ZZVerifC01SubView: a view of a view ("child views at any depth"): from the
+// view rooted at "a" a second view is opened with a symbolic spelling; what
+// is written through it lands below a/<the spelling resolved inside the
+// view> - for a spelling that climbs above the view's root the call is
+// refused or resolves as if the surplus ".." were dropped - and in every case
+// the tree outside "a" stays as it was.
+func ZZVerifC01SubView() {
+	root, _ := NewFilespace()
+	ref := reftree.NewRoot()
+	zzPrelude(root, ref)
+	view, err := root.Filespace("a")
+	nd.Assume(err == nil)
+	p := nd.StringUpTo("p", nd.Param("SL", 4))
+	for i := 0; i < len(p); i++ {
+		nd.Assume(p[i] != 0)
+	}
+	sub, err := view.Filespace(p)
+	segs, climbs := reftree.Norm(p)
+	if err == nil {
+		werr := sub.WriteFile("m", []byte("M"), filesystem.DefaultUnixFileMode)
+		at := append([]string{"a"}, segs...)
+		t := ref.Find(at)
+		if werr == nil && t != nil && t.Dir {
+			ref.WriteFile(append(append([]string{}, at...), "m"), []byte("M"))
+			nd.Assert(reftree.Same(root, ref, nil), "C01/subview-write-lands-inside-the-view")
+		} else {
+			// a view opened on a missing node or on a file (if the call accepts
+			// that): whatever the write did, it did it below "a"
+			top, lerr := root.ReadDir(".")
+			nd.Assert(lerr == nil && len(top) == 2, "C01/subview-outside-unchanged")
+			g, gerr := root.ReadFile("g")
+			nd.Assert(gerr == nil && string(g) == "22" && root.IsDir("a"), "C01/subview-outside-unchanged")
+		}
+		if climbs {
+			nd.Reach("C01/subview-climbing-accepted")
+		}
+	} else {
+		nd.Assert(reftree.Same(root, ref, nil), "C01/subview-refused-tree-unchanged")
+	}
+	nd.Reach("C01/subview-end")
+}
+
 // zzTemplates: the two-step harness draws its paths from structural templates
 // over the existing names (a, a/f, a/d, g) and fresh names.
 var zzTemplates bool
